@@ -1,0 +1,49 @@
+//! Verification hooks (compiled only with `--cfg tokio_rs_tracing_verif`): named yield points at
+//! the atomic operations and lock acquisitions of the callsite registry and the dispatcher
+//! defaults, so that a test harness can enforce and record interleavings. Without a hook installed
+//! every point is a no-op.
+use std::string::String;
+use std::sync::RwLock;
+
+static HOOK: RwLock<Option<fn(&str)>> = RwLock::new(None);
+
+/// Installs (or removes) the function called at every yield point with the point's name.
+pub fn set_hook(hook: Option<fn(&str)>) {
+    *HOOK.write().unwrap_or_else(|e| e.into_inner()) = hook;
+}
+
+/// A yield point.
+pub fn point(site: &str) {
+    let hook = *HOOK.read().unwrap_or_else(|e| e.into_inner());
+    if let Some(hook) = hook {
+        hook(site);
+    }
+}
+
+/// Announces that a lock is about to be taken (`lock:<name>:R+` / `W+`) and, when dropped, that it
+/// has been released (`R-` / `W-`). Declare it *before* the guard so that it is dropped after it.
+#[derive(Debug)]
+pub struct LockNote {
+    name: &'static str,
+    write: bool,
+}
+
+impl LockNote {
+    /// Announce the acquisition of lock `name`.
+    pub fn new(name: &'static str, write: bool) -> Self {
+        let mut s = String::from("lock:");
+        s.push_str(name);
+        s.push_str(if write { ":W+" } else { ":R+" });
+        point(&s);
+        LockNote { name, write }
+    }
+}
+
+impl Drop for LockNote {
+    fn drop(&mut self) {
+        let mut s = String::from("lock:");
+        s.push_str(self.name);
+        s.push_str(if self.write { ":W-" } else { ":R-" });
+        point(&s);
+    }
+}
